@@ -66,18 +66,47 @@ def prove(pc, goal, timeout_s=10.0, use_cvc5=True, key_extra=""):
     strings = _has_strings(fs[-3:]) or _has_strings(fs)
     res = None
     if not strings:
-        s = z3.Solver()
-        s.set("timeout", int(timeout_s * 1000))
-        for f in fs:
-            s.add(f)
-        r = s.check()
+        qf = not any(_has_quant(f) for f in fs)
+        r = z3.unknown
+        for budget in ((0.2 * timeout_s, timeout_s) if qf else (timeout_s,)):
+            s = z3.Solver()
+            s.set("timeout", int(budget * 1000))
+            for f in fs:
+                s.add(f)
+            r = s.check()
+            if r != z3.unknown:
+                break
+            if qf and budget < timeout_s:
+                # quantifier-free (typically nonlinear) query: try the cheap dedicated pipelines before spending the full budget
+                hit = None
+                for tname, mk in (("solve-eqs", lambda: z3.Then("simplify", "propagate-values", "solve-eqs", "smt").solver()),
+                                  ("qfnra", lambda: z3.Tactic("qfnra").solver())):
+                    try:
+                        st_ = mk()
+                        st_.set("timeout", int(timeout_s * 300))
+                        for f in fs:
+                            st_.add(f)
+                        if st_.check() == z3.unsat:
+                            hit = tname
+                            break
+                    except z3.Z3Exception:
+                        pass
+                if hit:
+                    dt = time.time() - t0
+                    STATS["z3_s"] += dt
+                    res = dict(status="proved", model=None, ms=dt * 1000, backend="z3(%s)" % hit)
+                    break
         dt = time.time() - t0
         STATS["z3_s"] += dt
-        if r == z3.unsat:
+        if res is not None:
+            pass
+        elif r == z3.unsat:
             res = dict(status="proved", model=None, ms=dt * 1000, backend="z3")
         elif r == z3.sat:
             res = dict(status="refuted", model=s.model(), ms=dt * 1000, backend="z3")
         else:
+            pass
+        if res is None and not strings and r == z3.unknown:
             # second attempt with a different configuration before giving up
             s2 = z3.Solver()
             s2.set("timeout", int(timeout_s * 500))
